@@ -735,6 +735,10 @@ func (s *Sim) cprog(r *CallRec, st grpc.ClientStream, prog []Op, suffix string) 
 			r.CloseErr = err
 			histMu.Unlock()
 			e.Log("c.close", "", id, errStr(err))
+			if op.N == 1 && err != nil {
+				// what the generated stubs do: the call is given up, the stream dropped
+				return
+			}
 		case 'h':
 			e.Pt("c.header")
 			md, err := st.Header()
